@@ -36,6 +36,9 @@ TRUSTED = [
     "fx = gx = true); fx = false / gx = false are the respective unchanged tests and are refuted",
 ]
 ASSUMES = [
+    "compile() is a function of its arguments: the model is history-free, and the harness checks that on histories of 2-4 compile() calls "
+    "on one compiler object (same circuit under ASAP and ALAP in either order, other circuits and None/False in between); "
+    "schedule_mode ranges over the documented values None, False (both: sequential), 'ASAP', 'ALAP'",
     "per channel: instruction windows are non-overlapping and ordered by start (checked by the harness on the scheduler's output)",
     "every instruction has positive duration, a time grid starting at 0 and strictly increasing, and matching coefficient length",
     "float-resolution guard gaps_ok (gap_tol true res): an idle gap is either 0 or larger than time_resolution = 1e-14 x the latest end time of the "
@@ -77,7 +80,8 @@ def _mk_instruction(gate, spec):
     return Instruction(gate, tlist=np.array(val, dtype=float), pulse_info=info)
 
 
-def _synthetic_compiler(case):
+def _synthetic_compiler(nq, table):
+    """user-defined compiler; gate.arg_value indexes `table` (the gate specs of every compile() call it will serve)"""
     from qutip_qip.compiler import GateCompiler
 
     class Syn(GateCompiler):
@@ -90,7 +94,7 @@ def _synthetic_compiler(case):
         def _one(self, gate, args):
             return [_mk_instruction(gate, self._specs[int(gate.arg_value)])]
 
-    return Syn(case["nq"], case["gates"])
+    return Syn(nq, table)
 
 
 _DEV = {}
@@ -139,8 +143,9 @@ def _duration(spec):
     return float(val) if kind != "arr" else float(val[-1])
 
 
-def run_real(case):
-    """Runs the real code. Returns dict:
+def run_real(case, comp=None, offset=0):
+    """Runs the real code (one compile() call; `comp` = compiler object to reuse, `offset` = position of this
+       call's gates in the synthetic compiler's table). Returns dict:
        out     : {"rejected": repr} | {"map": {name: (tlist list, coeff list)}}
        specs   : instruction specs in the order the gate compilers produced them (None if unavailable)
        starts  : start time of every instruction, computed independently of GateCompiler._schedule
@@ -149,8 +154,9 @@ def run_real(case):
     res = {"specs": None, "starts": None, "order": None}
     try:
         if case["kind"] == "synthetic":
-            comp = _synthetic_compiler(case)
-            gates = [_mk_gate(g, i) for i, g in enumerate(case["gates"])]
+            if comp is None:
+                comp = _synthetic_compiler(case["nq"], case["gates"])
+            gates = [_mk_gate(g, offset + i) for i, g in enumerate(case["gates"])]
             args = None
             specs = [{"tl": g["tl"], "pulses": g["pulses"]} for g in case["gates"]]
             try:
@@ -158,7 +164,9 @@ def run_real(case):
             except Exception:
                 ins = None
         else:
-            comp, gates, args = _shipped(case)
+            comp_new, gates, args = _shipped(case)
+            if comp is None:
+                comp = comp_new
             comp2, gates2, _ = _shipped(case)
             comp2.args.update(args)
             ins = []
@@ -562,9 +570,13 @@ def _sampled(rng, continuous, lo, hi):
     return ts
 
 
-def gen_case(rng, flavor, big=False):
+MODES = [None, False, "ASAP", "ALAP"]      # the values compile() documents for schedule_mode
+
+
+def gen_case(rng, flavor, big=False, mode="random"):
     nq = rng.randint(1, 4)
-    mode = rng.choice([None, None, "ASAP", "ALAP"])
+    if mode == "random":
+        mode = rng.choice([None, None, False, "ASAP", "ALAP", "ASAP", "ALAP"])
     ng = rng.randint(1, 12 if big else 7)
     # exponent window: sometimes narrow (comparable durations), mostly the full ten orders of magnitude
     if rng.random() < 0.25:
@@ -573,7 +585,7 @@ def gen_case(rng, flavor, big=False):
     else:
         lo, hi = -17, 16
     qkind = {q: rng.choice(["d", "c"]) for q in range(nq)}
-    use_global = (mode is None and rng.random() < 0.4)
+    use_global = (not mode and rng.random() < 0.4)
     gates = []
     for _ in range(ng):
         two = nq >= 2 and rng.random() < 0.35 and flavor != "perqubit"
@@ -723,8 +735,60 @@ def gen_shipped(rng):
             gates.append({"name": name, "targets": [a, a + 1], "controls": None,
                           "arg": arg if name == "RZX" else None})
     shape = rng.choice(["rectangular", "hann", "hamming"]) if dev != "scqubits" else rng.choice(["hann", "hamming"])
-    return {"kind": "shipped", "device": dev, "nq": nq, "mode": rng.choice([None, "ASAP", "ALAP"]),
+    return {"kind": "shipped", "device": dev, "nq": nq, "mode": rng.choice(MODES),
             "shape": shape, "num_samples": rng.choice([3, 5, 8]), "gates": gates, "flavor": "shipped:" + dev}
+
+
+def _asap_alap_circuit(rng):
+    """a small circuit whose ASAP and ALAP schedules give different waveforms: gates of different length on two
+       qubits, commuting gates (same name, same target) of different amplitude competing for a qubit, and a
+       two-qubit gate that both have to wait for"""
+    d = [float(rng.choice([1, 2, 3, 5, 8, 13])) for _ in range(4)]
+    if d[0] == d[2]:
+        d[2] += 1.0
+    a = [_coef(rng) for _ in range(5)]
+    gates = [
+        {"name": "G0", "targets": [0], "controls": None, "tl": ["scalar", d[0]], "pulses": [["x0", a[0]]]},
+        {"name": "G0", "targets": [0], "controls": None, "tl": ["scalar", d[1]], "pulses": [["x0", -a[1]]]},
+        {"name": "G1", "targets": [1], "controls": None, "tl": ["scalar", d[2]], "pulses": [["x1", a[2]]]},
+    ]
+    if rng.random() < 0.6:
+        gates.append({"name": "G2", "targets": [1], "controls": [0], "tl": ["arr", [0.0, d[3], 2 * d[3]]],
+                      "pulses": [["zz01", [a[3], a[4]]]]})
+    if rng.random() < 0.5:
+        gates.append({"name": "G1", "targets": [1], "controls": None, "tl": ["scalar", d[1]], "pulses": [["x1", -a[2]]]})
+    rng.shuffle(gates)
+    return {"kind": "synthetic", "mode": "ASAP", "nq": 2, "gates": gates, "flavor": "history"}
+
+
+def gen_history(rng):
+    """2-4 compile() calls on one compiler object: the same circuit under both scheduled modes (in either order),
+       other circuits and the unscheduled values None / False in between"""
+    if rng.random() < 0.2:
+        base = gen_shipped(rng)
+        other = dict(gen_shipped(rng), device=base["device"])
+        if base["device"] == "scqubits" or other["shape"] not in ("rectangular", "hann", "hamming"):
+            other = dict(base)
+        # gates of `other` must be native to the same device
+        if base["device"] != other.get("device") or (base["device"] == "scqubits") != any(
+                g["name"] in ("RY", "CNOT", "RZX") for g in other["gates"]):
+            other = dict(base)
+    else:
+        if rng.random() < 0.45:
+            base = _asap_alap_circuit(rng)
+        else:
+            base = gen_case(rng, rng.choice(["discrete", "continuous", "perqubit"]), mode=rng.choice(["ASAP", "ALAP"]))
+        other = gen_case(rng, rng.choice(["discrete", "continuous"]), mode=rng.choice(["ASAP", "ALAP"]))
+    m1, m2 = rng.choice([("ASAP", "ALAP"), ("ALAP", "ASAP")])
+    steps = [dict(base, mode=m1), dict(base, mode=m2)]
+    r = rng.random()
+    if r < 0.35:
+        steps.insert(rng.randint(0, 2), dict(other, mode=rng.choice(MODES)))
+    elif r < 0.6:
+        steps.insert(rng.randint(0, 1), dict(base, mode=rng.choice([None, False])))
+    if rng.random() < 0.4 and len(steps) < 4:
+        steps.append(dict(rng.choice([base, other]), mode=rng.choice(MODES)))
+    return {"kind": "history", "steps": steps, "flavor": "history"}
 
 
 def corpus_cases():
@@ -758,9 +822,9 @@ def float_exact(specs, starts):
     return True
 
 
-def judge(case):
+def judge(case, comp=None, offset=0):
     """real run + oracle. returns (real result dict, list of observed-failure dicts, exact flag)"""
-    real = run_real(case)
+    real = run_real(case, comp, offset)
     exact = case["kind"] == "synthetic" and float_exact(real["specs"], real["starts"])
     fails = []
     specs, starts = real["specs"], real["starts"]
@@ -771,6 +835,37 @@ def judge(case):
             f["starts"] = starts
             f["specs"] = specs
     return real, fails, exact
+
+
+def judge_steps(case):
+    """A case is one compile() call, or a HISTORY {"kind": "history", "steps": [case, ...]}: the calls are made one
+       after the other on ONE compiler object; every call is judged against the history-free oracle and model.
+       Returns [(step case, real, fails, exact)]."""
+    if case.get("kind") != "history":
+        real, fails, exact = judge(case)
+        return [(case, real, fails, exact)]
+    steps = case["steps"]
+    comp = None
+    offsets = []
+    if steps and steps[0]["kind"] == "synthetic":
+        table = []
+        for st in steps:
+            offsets.append(len(table))
+            table += st["gates"]
+        try:
+            comp = _synthetic_compiler(max(st["nq"] for st in steps), table)
+        except Exception:
+            comp = None
+    elif steps:
+        comp = _shipped(steps[0])[0]
+        offsets = [0] * len(steps)
+    out = []
+    for k, (st, off) in enumerate(zip(steps, offsets)):
+        real, fails, exact = judge(st, comp, off)
+        for f in fails:
+            f["step"] = k
+        out.append((st, real, fails, exact))
+    return out
 
 
 def _branch_key(specs, starts, out):
@@ -822,10 +917,17 @@ def correspond(ctx):
 
     prepared = []
     terms = []
-    for ci, case in enumerate(cases):
-        real, fails, exact = judge(case)
+    for _ in range(ctx.n(110, 600)):
+        cases.append(gen_history(rng))
+    steps_all = []
+    for whole in cases:
+        for k, (st, real, fails, exact) in enumerate(judge_steps(whole)):
+            steps_all.append((whole, k, st, real, fails, exact))
+    for whole, stepno, case, real, fails, exact in steps_all:
         specs, starts, order = real["specs"], real["starts"], real["order"]
-        flavor = case.get("flavor", "corpus")
+        flavor = whole.get("flavor", "corpus")
+        if whole.get("kind") == "history":
+            corr.tally("history-steps")
         if specs is None:
             raise Broken("correspondence:C12:instruction-extraction", real.get("aux_error", "?") + " on " + json.dumps(case)[:500])
         if starts is None:
@@ -835,8 +937,8 @@ def correspond(ctx):
                 # scheduled + unbuildable instruction: the model is given no start times; use unscheduled form
                 pass
         for f in fails:
-            rec = dict(input=case, observed=f, expected=f.get("want"), what="C12 oracle: " + f["kind"])
-            corr.oracle_fail(case, f, f.get("want"), rec["what"])
+            rec = dict(input=whole, observed=f, expected=f.get("want"), what="C12 oracle: " + f["kind"])
+            corr.oracle_fail(whole, f, f.get("want"), rec["what"])
             corr.tally("oracle-failure:" + f["kind"] + ":" + str(classify(rec)))
         if well_formed(specs) and near_threshold(specs, starts, order, exact):
             # the oracle has judged the case; only the model comparison is skipped
@@ -845,23 +947,23 @@ def correspond(ctx):
         mode = case.get("mode") if real["starts"] is not None else None
         term, id2name = coq_term(specs, starts, order, mode)
         terms.append(term)
-        prepared.append((case, real, id2name, flavor, specs, starts, bool(fails)))
+        prepared.append((case, real, id2name, flavor, specs, starts, bool(fails), whole, stepno))
 
     vals = run_model(terms, "corr")
-    for (case, real, id2name, flavor, specs, starts, failed), val in zip(prepared, vals):
+    for (case, real, id2name, flavor, specs, starts, failed, whole, stepno), val in zip(prepared, vals):
         model = model_to_map(val, id2name)
         diff = compare(real["out"], model)
         if diff is not None:
             impl = real["out"]
             mod = {"rejected": "model"} if "rejected" in model else \
                 {k: ([float(x) for x in v[0]], [float(x) for x in v[1]]) for k, v in model["map"].items()}
-            corr.disagree(case, impl, mod, "compile vs Model.Concat.compile: " + diff.split(":")[0])
+            corr.disagree(whole, dict(impl, step=stepno), mod, "compile vs Model.Concat.compile: " + diff.split(":")[0])
         rejected = "rejected" in real["out"]
         feats = set() if rejected or not well_formed(specs) else _branch_key(specs, starts, real["out"])
         nontrivial = bool(feats & {"multi", "gap", "channels>1"})
-        corr.count(json.dumps(case, sort_keys=True), nontrivial=nontrivial, sample=case)
+        corr.count(json.dumps(whole, sort_keys=True) + "#%d" % stepno, nontrivial=nontrivial, sample=whole)
         corr.tally("flavor:" + flavor.split(":")[0])
-        corr.tally("mode:" + str(case.get("mode")))
+        corr.tally("mode:" + repr(case.get("mode")))
         corr.tally("rejected" if rejected else "accepted")
         for ft in feats:
             corr.tally("branch:" + ft)
@@ -873,8 +975,7 @@ def correspond(ctx):
 
 def replay(ctx, rec):
     case = rec.get("input", rec)
-    real, fails, _ = judge(case)
-    return bool(fails)
+    return any(fails for _, _, fails, _ in judge_steps(case))
 
 
 def search(ctx, broken):
@@ -888,9 +989,11 @@ def search(ctx, broken):
     for flavor in ("ratio", "lategap", "resgap", "discrete", "continuous", "perqubit"):
         for _ in range(ctx.n(150, 800)):
             cands.append(gen_case(rng, flavor))
+    for _ in range(ctx.n(150, 600)):
+        cands.append(gen_history(rng))
     for case in cands:
         try:
-            real, fails, _ = judge(case)
+            fails = [f for _, _, fs, _ in judge_steps(case) for f in fs]
         except Exception:
             continue
         for f in fails:
